@@ -239,6 +239,64 @@ def check(run):
     run.count(nscopes)
     run.extra['function_scopes_entered'] = nscopes
 
+    # 2c. options key the conversion cache: one function (and a nested def in it) converted by the real transpiler under
+    # sequences of option values that differ in one attribute (both orders) or not at all; the FunctionScope entered
+    # by the code returned for each request must carry exactly the requested options (top level) and their
+    # call_options() (nested def)
+    from malt.impl import api as _api
+    seen_scopes = []
+    orig_init = function_wrappers.FunctionScope.__init__
+
+    def rec_init(self, function_name, scope_name, options):
+        seen_scopes.append((function_name, options))
+        return orig_init(self, function_name, scope_name, options)
+    bools = [(r, u, i) for r in (False, True) for u in (False, True) for i in (False, True)]
+    feats = [None, Feature.BUILTIN_FUNCTIONS, (Feature.EQUALITY_OPERATORS, Feature.LISTS)]
+    values = [(r, u, i, f) for (r, u, i) in bools for f in feats]
+    rk = random.Random(run.seed * 13 + 1)
+    seqs = []
+    for a in values:
+        for b in values:
+            if sum(1 for x, y in zip(a, b) if x != y) <= 1:
+                seqs.append([a, b])
+    rk.shuffle(seqs)
+    seqs = seqs[:60 if run.tier == 'quick' else 400] + [[rk.choice(values) for _ in range(5)] for _ in range(10 if run.tier == 'quick' else 60)]
+    nreq = 0
+    function_wrappers.FunctionScope.__init__ = rec_init
+    try:
+        for si, seq in enumerate(seqs):
+            ns = {}
+            exec(compile('def g%d(x):\n    def inner(y):\n        return y + 1\n    return inner(x)\n' % si, '<c20-cache-%d>' % si, 'exec'), ns)
+            import linecache
+            linecache.cache['<c20-cache-%d>' % si] = (0, None, ['def g%d(x):\n' % si, '    def inner(y):\n', '        return y + 1\n', '    return inner(x)\n'], '<c20-cache-%d>' % si)
+            g = ns['g%d' % si]
+            for (r, u, i, f) in seq:
+                o = CO(recursive=r, user_requested=u, internal_convert_user_code=i, optional_features=f)
+                del seen_scopes[:]
+                try:
+                    nf = _api._convert_actual(g, converter.ProgramContext(options=o))
+                    nf(1)
+                except Exception as e:   # noqa
+                    failures.append(('conversion under a sequence of option values raised %s: %s' % (type(e).__name__, str(e)[:200]),
+                                     repr((r, u, i, f)), repr(seq)))
+                    break
+                nreq += 1
+                top = [x for n, x in seen_scopes if n == 'g%d' % si]
+                inn = [x for n, x in seen_scopes if n == 'inner']
+                ok = len(top) == 1 and top[0] == o and top[0].as_tuple() == o.as_tuple() and \
+                    len(inn) == 1 and inn[0].as_tuple() == o.call_options().as_tuple()
+                if not ok:
+                    failures.append(('the options embedded in the code returned for a conversion request are not the requested ones '
+                                     '(same function converted before under other options: the cache key does not determine them)',
+                                     'ConversionOptions(recursive=%r, user_requested=%r, internal_convert_user_code=%r, optional_features=%r)' % (r, u, i, f),
+                                     'request sequence %r; scopes entered: %r; expected top %r, nested %r' % (
+                                         seq, [(n, x.as_tuple()) for n, x in seen_scopes], o.as_tuple(), o.call_options().as_tuple())))
+                    break
+    finally:
+        function_wrappers.FunctionScope.__init__ = orig_init
+    run.count(nreq)
+    run.extra['cache_requests_checked'] = nreq
+
     # 3. model vs implementation, evaluated inside Coq
     corr_bad = None
     if tie_ok:
